@@ -234,6 +234,37 @@ theorem C13_request_noninterference (ds : Node) (hs : Served ds) (reqs : Nat →
          fun i => (C13_noninterference _ P h0 hD σ).2.2.2 (.inr (none, i)) rfl,
          fun t ht => (C13_complete_outputs _ P h0 hD σ t ht).1⟩
 
+open Pydap.RowHeap in
+/-- **Requests that fail — malformed requests, errors raised while the dataset is constrained or while the records
+    are read.**  Every thread's whole-request program (`C13_request_noninterference`) may be cut short at ANY step by
+    ANY exception (`cut t = some (k, e)`: after `k` steps `e` is raised and unwinds the request; `k = 0` is a request
+    `parse_ce` rejects before the copy; `none`: the request runs to its end).  The family is still `Disciplined`, so
+    under ANY schedule: every object of the served dataset and every source record keeps its initial value — also
+    when the request is abandoned between two stores —, every request the schedule lets finish, failed or not, has the
+    outputs of its solo run (the same values, the same exception), and a request rejected at once outputs exactly its
+    exception. -/
+theorem C13_request_interrupted (ds : Node) (hs : Served ds) (reqs : Nat → Req)
+    (src : List PObj) (stream : List PVal) (filts : Nat → List RFilt) (maps : Nat → List RMap) (peeks : Nat → Nat)
+    (cut : Nat → Option (Nat × String)) (h0 : Heap ReqLoc RVal) (σ : List Nat) :
+    let P := fun t => interrupted (requestProgram ds (reqs t) src stream (filts t) (maps t) (peeks t) t) (cut t)
+    Disciplined reqOwner P ∧
+    (∀ r : Ref, r.own = none → (run (init h0 P) σ).heap (.inl r) = h0 (.inl r)) ∧
+    (∀ i, (run (init h0 P) σ).heap (.inr (none, i)) = h0 (.inr (none, i))) ∧
+    (∀ t, (P t).length ≤ σ.count t → ((run (init h0 P) σ).th t).outs = (solo h0 (P t)).2.outs) ∧
+    (∀ t e, cut t = some (0, e) → 1 ≤ σ.count t → ((run (init h0 P) σ).th t).outs = [Emit.err e]) := by
+  intro P
+  have hD : Disciplined reqOwner P :=
+    disciplined_interrupted (C13_request_noninterference ds hs reqs src stream filts maps peeks h0 σ).1 cut
+  refine ⟨hD, fun r hr => (C13_noninterference _ P h0 hD σ).2.2.2 (.inl r) hr,
+    fun i => (C13_noninterference _ P h0 hD σ).2.2.2 (.inr (none, i)) rfl,
+    fun t ht => (C13_complete_outputs _ P h0 hD σ t ht).1, ?_⟩
+  intro t e hc h1
+  have hP : P t = interrupted (requestProgram ds (reqs t) src stream (filts t) (maps t) (peeks t) t) (some (0, e)) := by
+    simp only [P, hc]
+  have hlen : (P t).length ≤ σ.count t := by rw [hP]; simpa [interrupted] using h1
+  rw [(C13_complete_outputs _ P h0 hD σ t hlen).1, hP]
+  exact (solo_rejected h0 _ e).1
+
 /-! non-vacuity -/
 
 section RowExamples
@@ -327,5 +358,21 @@ open Pydap.RowHeap in
     stores and the record stores are both in it -/
 example : (requestProgram exDs (exReqs 0) exSrc [.ref (.src 0)] [.truthy] [.nest 1 exPred, .fixNested [false, true]] 1 0).length
     = (program exDs 0 (exReqs 0)).length + 3 := by decide +kernel
+
+open Pydap.RowHeap in
+/-- interrupted requests are real programs: the example request cut after 40 stores is 41 steps long and ends in the
+    exception; cut at 0 it is the exception alone; an uncut one is the whole-request program -/
+example :
+    (interrupted (requestProgram exDs (exReqs 0) exSrc [.ref (.src 0)] [.truthy] [.nest 1 exPred] 1 0)
+      (some (40, "KeyError"))).length = 41 ∧
+    (interrupted (requestProgram exDs (exReqs 0) exSrc [.ref (.src 0)] [.truthy] [.nest 1 exPred] 1 0)
+      (some (0, "ConstraintExpressionError"))).length = 1 ∧
+    interrupted (requestProgram exDs (exReqs 0) exSrc [.ref (.src 0)] [.truthy] [.nest 1 exPred] 1 0) none
+      = requestProgram exDs (exReqs 0) exSrc [.ref (.src 0)] [.truthy] [.nest 1 exPred] 1 0 := by
+  refine ⟨?_, ?_, rfl⟩
+  · have : 40 ≤ (requestProgram exDs (exReqs 0) exSrc [.ref (.src 0)] [.truthy] [.nest 1 exPred] 1 0).length := by
+      decide +kernel
+    simp [interrupted, List.length_take, Nat.min_eq_left this]
+  · simp [interrupted]
 
 end Pydap.C13
